@@ -159,6 +159,20 @@ structure Known where
   serverNames : List Str
 deriving Repr, DecidableEq
 
+/-- the life-cycle part of `ObjectMeta` (and the labels): what the API server presents of an object in the states it
+    can be in - fresh, updated, terminating (`deletionTimestamp` set, finalizers pending), with any generation,
+    resource version, managed fields, owner references. Their syntax is judged by `ValidateObjectMeta` (`metaErrs`);
+    apart from that nothing in the validation or in a consumer reads them. -/
+structure Lifecycle where
+  terminating : Bool := false
+  finalizers : List Str := []
+  generation : Int := 0
+  resourceVersion : Str := []
+  managedFields : Nat := 0
+  ownerReferences : Nat := 0
+  labels : List (Str × Str) := []
+deriving Repr, DecidableEq
+
 structure Cluster where
   name : Str
   /-- the answer of `apivalidation.ValidateObjectMeta(&cluster.ObjectMeta, false, NameIsDNSSubdomain, metadata)` -/
@@ -171,6 +185,7 @@ structure Cluster where
   schemas : List Schema
   loggingMode : Str
   policies : List Policy
+  lifecycle : Lifecycle := {}
 deriving Repr, DecidableEq
 
 /-! ## String constants -/
@@ -454,19 +469,35 @@ def validate (env : Env) (known : List Known) (c : Cluster) : M Errs := do
 /-- `admission.Operation` (the plugin handles Create and Update) -/
 inductive Operation where
   | create | update
+  | statusUpdate      -- an update through the `status` subresource
 deriving Repr, DecidableEq, Inhabited
 
 /-- `upstreamclusterPlugin.Admit`: `SetDefaults_UpstreamCluster` gives every policy without strategy `RoundRobin`
-    (the rule normalisation that follows is C17's subject; rules are not part of this model). Runs before `Validate`
-    for both operations; does not read the old object. -/
+    (the rule normalisation that follows is C17's subject; rules are not part of this model). Runs before `Validate`;
+    does not read the old object. -/
 def admitObject (c : Cluster) : Cluster :=
   { c with policies := c.policies.map (fun p => if p.strategy = [] then { p with strategy := sRoundRobin } else p) }
 
+/-- `Admit` with the operation: requests on a subresource are ignored (`shouldIgnore`) -/
+def admitAdmission (op : Operation) (c : Cluster) : Cluster :=
+  match op with
+  | .statusUpdate => c
+  | _ => admitObject c
+
+/-- the generic registry's `DefaultStatusRESTStrategy.PrepareForUpdate(obj, old)`: a write through the status
+    subresource keeps the stored spec and labels and takes everything else - the annotations - from the request -/
+def prepareForStatusUpdate (old new : Cluster) : Cluster :=
+  { new with servers := old.servers, clientConfig := old.clientConfig, secureServing := old.secureServing,
+             schemas := old.schemas, loggingMode := old.loggingMode, policies := old.policies,
+             lifecycle := { new.lifecycle with labels := old.lifecycle.labels } }
+
 /-- `upstreamclusterPlugin.Validate(ctx, attributes, o)` with the admission attributes spelled out: the operation
-    and `a.GetOldObject()`. The code reads neither (only `a.GetObject()`): an update is validated exactly like a
-    create, whatever part of the object changed. -/
-def validateAdmission (env : Env) (known : List Known) (_op : Operation) (_old : Option Cluster) (c : Cluster) : M Errs :=
-  validate env known c
+    and `a.GetOldObject()`; `c` is `a.GetObject()` (for a status write: after `PrepareForUpdate`). The code does not
+    read the old object; the operation only matters through `shouldIgnore(a) && !isStatusUpdate(a)`: a status write
+    is validated like every other update iff that is the guard (`Gen.C16.statusValidated`), else it is skipped. -/
+def validateAdmission (env : Env) (known : List Known) (op : Operation) (_old : Option Cluster) (c : Cluster) : M Errs :=
+  if op = .statusUpdate && !Gen.C16.statusValidated then pure []
+  else validate env known c
 
 /-! ## Generic loops -/
 
@@ -764,6 +795,8 @@ structure ClusterInfo where
   flowcontrol : UpstreamLimiter
   secureServing : SecureServing
   endpoints : List Str
+  /-- `currentDispatchPolicies` -/
+  policies : List Policy := []
 deriving Repr, DecidableEq
 
 def emptySecureServing : SecureServing := ⟨[], [], [], []⟩
@@ -819,12 +852,31 @@ def ClusterInfo.sync (env : Env) (ci : ClusterInfo) (c : Cluster) : M ClusterInf
     let ss ← syncSecureServingConfig env ci.secureServing c.secureServing
     let eps ← syncEndpoints env ci.restTLS ci.endpoints c.servers
     pure { ci with gateGlobalRateLimiter := gate, limiterRemote := limiterRemote, flowcontrol := fl,
-                   secureServing := ss, endpoints := eps }
+                   secureServing := ss, endpoints := eps, policies := c.policies }
 
 /-- `CreateClusterInfo(cluster, healthCheck, rateLimiter, clientSets)` -/
 def createClusterInfo (env : Env) (remote : Bool) (c : Cluster) : M ClusterInfo := do
   let restTLS ← buildClusterRESTConfig env c
   (newEmptyClusterInfo env c.name restTLS remote).sync env c
+
+/-! ## what a dispatch policy resolves to (`ClusterInfo.MatchAttributes` once `MatchPolicies` chose the policy; which
+    policy a request matches is C01's subject) -/
+
+/-- `result.upstreams`: the policy's subset, else `c.AllEndpoints()` -/
+def resolveUpstreams (ci : ClusterInfo) (p : Policy) : List Str :=
+  if p.upstreamSubset ≠ [] then p.upstreamSubset else ci.endpoints
+
+/-- `endpointPickStrategy.Pop` looks every upstream up with `s.cluster.Endpoints.Load(ep)`: the ones it can use -/
+def loadedUpstreams (ci : ClusterInfo) (p : Policy) : List Str :=
+  (resolveUpstreams ci p).filter (fun ep => ci.endpoints.contains ep)
+
+/-- `c.GetFlowSchema(policy.FlowControlSchemaName)` = `upstreamLimiter.GetOrDefault` in local mode: the limiter of
+    that name (`none` = the embedded interface is nil), the exempt `system-default` for no / an unknown name -/
+def resolveFlowControl (ci : ClusterInfo) (p : Policy) : Option FlowCtl :=
+  if p.flowControlSchemaName = [] then some ⟨.exempt, 0, 0⟩
+  else match alGet ci.flowcontrol.flowControls p.flowControlSchemaName with
+    | some w => w.fc
+    | none => some ⟨.exempt, 0, 0⟩
 
 /-! ## pkg/gateway/controllers/upstream_controller.go -/
 
